@@ -9,7 +9,7 @@ trap 'git -C /repo worktree remove --force $wt' EXIT
 PYTHONPATH=$wt /venv/bin/python $sd/demo.py >/dev/null 2>&1; before=$?
 git -C $wt apply $sd/patch.diff || { echo "PATCH DOES NOT APPLY"; exit 3; }
 PYTHONPATH=$wt /venv/bin/python $sd/demo.py >/dev/null 2>&1; after=$?
-base=$(/tmp/seed/run_baseline.sh $wt)
+base=$(/verif/tools/run_baseline.sh $wt)
 echo "demo before=$before after=$after baseline: $base"
 cd /verif
 out=$(tools/try_patch.sh $sd/patch.diff $id 2>&1); rc=$?
